@@ -271,7 +271,7 @@ func (g *routerGen) badRegexParam(name string) *Sx {
 	return T("p", X(name), T("re", X(src)))
 }
 
-var bindNames = []string{"x", "y", "z", "a", "b", "id", "n", "route", "user-id", "f.n", "k~1"} // "route" is reserved: the framework overwrites it
+var bindNames = []string{"x", "y", "z", "a", "b", "id", "n", "route", "user-id", "f.n", "k~1", "withOptional"} // "route" is reserved: the framework overwrites it
 
 // one segment's elements; kind: 0 static 1 placeholder 2 regex 3 all
 func (g *routerGen) segment(opt bool, kindBias int) *Sx {
